@@ -31,7 +31,7 @@ func (s Scenario) String() string {
 	if s.Final != nil {
 		f = fmt.Sprintf(" then recover(%s,%s)", s.Final.Common, s.Final.Channel)
 	}
-	return fmt.Sprintf("log=%v server=%+v envelope=%q bot=%v v0=%d lazy=%v untracked=%v events=%v%s", s.World.Log, s.World.Server, s.World.Envelope, s.World.Bot, s.World.V0, s.World.Lazy, s.World.Untracked, s.Hist, f)
+	return fmt.Sprintf("log=%v server=%+v envelope=%q bot=%v v0=%d lazy=%v untracked=%v containers=%d faults=%v events=%v%s", s.World.Log, s.World.Server, s.World.Envelope, s.World.Bot, s.World.V0, s.World.Lazy, s.World.Untracked, s.World.Containers, s.World.Faults, s.Hist, f)
 }
 
 // Play runs a scenario on a fresh world: start-up against an empty server log (the client is in
@@ -72,6 +72,30 @@ func Alphabet(cfg WorldCfg, log []Entry, midTriggers bool) []Event {
 	var a []Event
 	for i := range log {
 		a = append(a, Event{Op: "push", I: i})
+	}
+	if cfg.Containers > 1 && !cfg.Server.Seq {
+		var rec func(cur []int)
+		rec = func(cur []int) {
+			if len(cur) >= 2 {
+				a = append(a, Event{Op: "pushc", Set: append([]int(nil), cur...)})
+			}
+			if len(cur) == cfg.Containers {
+				return
+			}
+		next:
+			for i := range log {
+				for _, c := range cur {
+					if c == i {
+						continue next
+					}
+				}
+				rec(append(cur, i))
+			}
+		}
+		rec(nil)
+	}
+	if cfg.Faults {
+		a = append(a, Event{Op: "fail", I: 1}, Event{Op: "fail", I: 2}, Event{Op: "fail", I: 3})
 	}
 	if cfg.V0 > 0 && cfg.V0 < len(log) {
 		a = append(a, Event{Op: "grow"})
